@@ -17,7 +17,7 @@ import (
 
 func (w *Weights) Spec_Fetch(key string) Weight {
 	if v, ok := (*w)[key]; !ok {
-		values := w.AsKeyValue()
+		values := w.Spec_AsKeyValue()
 		panic(fmt.Errorf("criterion %s not found in %v", key, values))
 	} else {
 		return v
@@ -27,7 +27,7 @@ func (w *Weights) Spec_Fetch(key string) Weight {
 func (w *Weights) Spec_PreserveOnly(criteria *Criteria) *Weights {
 	cpy := make(Weights, len(*criteria))
 	for _, c := range *criteria {
-		cpy[c.Id] = w.Fetch(c.Id)
+		cpy[c.Id] = w.Spec_Fetch(c.Id)
 	}
 	return &cpy
 }
@@ -39,8 +39,8 @@ func (w *Weights) Spec_Merge(other *Weights) *Weights {
 	}
 	for cryt, weight := range *other {
 		if _, ok := result[cryt]; ok {
-			oldWeights := w.AsKeyValue()
-			newWeights := other.AsKeyValue()
+			oldWeights := w.Spec_AsKeyValue()
+			newWeights := other.Spec_AsKeyValue()
 			panic(fmt.Errorf("criterion '%s' from %v already exists in %v", cryt, oldWeights, newWeights))
 		}
 		result[cryt] = weight
